@@ -132,39 +132,47 @@ Lemma sh_pop_loop : forall rest kept run seq, Forall cok rest -> Forall cok kept
 Proof.
   induction rest as [|c rest IH]; intros kept run seq Hr Hk Hrun.
   - cbn [pop_loop map]. change (@nil chunk) with (map shc []) at 1. now rewrite retained_shc.
-  - inversion Hr as [|? ? Hc Hr']; subst. cbn [map pop_loop].
+  - inversion Hr as [|? ? Hc Hr']; subst.
+    assert (HNone : forall kept0, Forall cok kept0 ->
+      pop_loop (map shc kept0) None (map shc (c :: rest)) seq =
+      let '(l, s, ms) := pop_loop kept0 None (c :: rest) seq in (map shc l, s, ms)).
+    { intros kept0 Hk0. cbn [map pop_loop].
+      change (shc c :: map shc rest) with (map shc (c :: rest)).
+      cbn [shc sid ppid last first unordered sseq tsn].
+      change (mkChunk (sh (tsn c)) (sid c) (sseq c) (unordered c) (first c) (last c) (ppid c) (udata c)) with (shc c).
+      destruct (negb (first c)).
+      * destruct (negb (unordered c)).
+        -- f_equal. f_equal. exact (retained_shc kept0 None (c :: rest)).
+        -- exact (IH (c :: kept0) None seq Hr' (Forall_cons _ Hc Hk0) I).
+      * destruct (negb (unordered c) && uint16_gt (sseq c) seq).
+        -- f_equal. f_equal. exact (retained_shc kept0 None (c :: rest)).
+        -- destruct (last c).
+           ++ change [shc c] with (map shc [c]). rewrite <- map_rev, join_data_shc.
+              pose proof (IH kept0 None (if negb (unordered c) && (sseq c =? seq) then uint16_add seq 1 else seq) Hr' Hk0 I) as E.
+              cbn [shrun] in E. rewrite E.
+              destruct (pop_loop kept0 None rest _) as [[l s] ms]. reflexivity.
+           ++ rewrite sh_plus_one.
+              exact (IH kept0 (Some ([c], tsn_plus_one (tsn c), negb (unordered c))) seq Hr' Hk0
+                        (conj (Forall_cons _ Hc (Forall_nil _)) (plus_one_r32 (tsn c)))). }
+    destruct run as [[[r e] o]|]; cbn [shrun]; [|exact (HNone kept Hk)].
+    cbn [map pop_loop].
     change (shc c :: map shc rest) with (map shc (c :: rest)).
     cbn [shc sid ppid last first unordered sseq tsn].
     change (mkChunk (sh (tsn c)) (sid c) (sseq c) (unordered c) (first c) (last c) (ppid c) (udata c)) with (shc c).
-    destruct run as [[[r e] o]|]; cbn [shrun].
-    + destruct Hrun as [Hrl He]. rewrite sh_eqb by assumption.
-      destruct (negb (tsn c =? e)).
-      * destruct o.
-        -- f_equal. f_equal. exact (retained_shc kept (Some (r, e, true)) (c :: rest)).
-        -- rewrite <- map_app.
-           exact (IH (c :: r ++ kept) None seq Hr' (Forall_cons _ Hc (proj2 (Forall_app _ _ _) (conj Hrl Hk))) I).
-      * destruct (last c).
-        -- change (shc c :: map shc r) with (map shc (c :: r)). rewrite <- map_rev, join_data_shc.
-           pose proof (IH kept None (if o && (sseq c =? seq) then uint16_add seq 1 else seq) Hr' Hk I) as E.
-           cbn [shrun] in E. rewrite E.
-           destruct (pop_loop kept None rest _) as [[l s] ms]. reflexivity.
-        -- rewrite sh_plus_one.
-           exact (IH kept (Some (c :: r, tsn_plus_one e, o)) seq Hr' Hk
-                     (conj (Forall_cons _ Hc Hrl) (plus_one_r32 e))).
-    + destruct (negb (first c)).
-      * destruct (negb (unordered c)).
-        -- f_equal. f_equal. exact (retained_shc kept None (c :: rest)).
-        -- exact (IH (c :: kept) None seq Hr' (Forall_cons _ Hc Hk) I).
-      * destruct (negb (unordered c) && uint16_gt (sseq c) seq).
-        -- f_equal. f_equal. exact (retained_shc kept None (c :: rest)).
-        -- destruct (last c).
-           ++ change [shc c] with (map shc [c]). rewrite <- map_rev, join_data_shc.
-              pose proof (IH kept None (if negb (unordered c) && (sseq c =? seq) then uint16_add seq 1 else seq) Hr' Hk I) as E.
-              cbn [shrun] in E. rewrite E.
-              destruct (pop_loop kept None rest _) as [[l s] ms]. reflexivity.
-           ++ rewrite sh_plus_one.
-              exact (IH kept (Some ([c], tsn_plus_one (tsn c), negb (unordered c))) seq Hr' Hk
-                        (conj (Forall_cons _ Hc (Forall_nil _)) (plus_one_r32 (tsn c)))).
+    destruct Hrun as [Hrl He]. rewrite sh_eqb by assumption.
+    destruct (negb (tsn c =? e)).
+    + destruct o.
+      * f_equal. f_equal. exact (retained_shc kept (Some (r, e, true)) (c :: rest)).
+      * rewrite <- map_app.
+        exact (HNone (r ++ kept) (proj2 (Forall_app _ _ _) (conj Hrl Hk))).
+    + destruct (last c).
+      * change (shc c :: map shc r) with (map shc (c :: r)). rewrite <- map_rev, join_data_shc.
+        pose proof (IH kept None (if o && (sseq c =? seq) then uint16_add seq 1 else seq) Hr' Hk I) as E.
+        cbn [shrun] in E. rewrite E.
+        destruct (pop_loop kept None rest _) as [[l s] ms]. reflexivity.
+      * rewrite sh_plus_one.
+        exact (IH kept (Some (c :: r, tsn_plus_one e, o)) seq Hr' Hk
+                  (conj (Forall_cons _ Hc Hrl) (plus_one_r32 e))).
 Qed.
 
 Lemma sh_pop_messages l seq : Forall cok l ->
